@@ -43,9 +43,77 @@ def known_silent(res):
                        {"kind": "violation", "name": name, "src": text, "operator": opid, "codes": list(codes), "line": line})
 
 
+# ---- matrices: a violation is a violation whatever stands around it.  Every combination of what can stand to the
+# left and to the right of a binary operator, and of the types in a parameter list, gets the edit; the combinations
+# where the unchanged tool is silent are left out by the stated predicates (they are instances of the listed findings
+# "V50 before `! ~ - * & (`, a constant after + and -", "V49 `+`/`-` after `)`", "V26 typedef name before typedef name").
+BIN = ["+", "-", "*", "/", "%", "<", ">", "<=", ">=", "==", "!=", "&&", "||", "&", "|", "^", "<<", ">>"]
+LEFT = {"id": "a", "num": "42", "chr": "'z'", "idx": "t[1]", "call": "f(a)", "par": "(a)", "mem": "p->m", "dot": "s.m", "str": "\"s\"[0]",
+        "sizeof": "sizeof(a)", "cast": "(int)a"}
+RIGHT = {"id": "b", "num": "7", "chr": "'y'", "idx": "t[2]", "call": "g(b)", "addr": "&b", "sizeof": "sizeof(b)", "str": "\"s\"[1]", "neg": "-b"}
+PTYPES = {"int": "int %s", "charp": "char *%s", "voidp": "void *%s", "cchar": "const char *%s", "tlist": "t_list *%s", "uns": "unsigned int %s",
+          "struct": "struct s_x *%s", "size_t": "size_t %s", "charpp": "char **%s", "long": "long long %s", "tval": "t_val %s", "arr": "int %s[3]",
+          "fp": "int (*%s)(int)", "cvoidp": "const void *%s"}
+
+
+def operator_matrix(rng, n):
+    cases = []
+    for op in BIN:
+        for lk, l in LEFT.items():
+            for rk, r in RIGHT.items():
+                pm = op in "+-"
+                if not (pm and lk in ("call", "par")):
+                    cases.append((f"before {op} left={lk} right={rk}", f"{l}{op} {r}", f"{l} {op} {r}", "SPC_BFR_OPERATOR"))
+                if not (pm and (rk in ("num", "neg") or lk in ("call", "par"))) and not (rk == "neg" and op == "-"):
+                    cases.append((f"after {op} left={lk} right={rk}", f"{l} {op}{r}", f"{l} {op} {r}", "SPC_AFTER_OPERATOR"))
+    return cases if n is None else rng.sample(cases, min(n, len(cases)))
+
+
+def param_matrix(rng, big):
+    import itertools
+    names = ["aa", "bb", "cc"]
+    tdef = ("size_t", "tval", "tlist")
+    out = []
+    for n in (1, 2, 3):
+        for combo in itertools.product(PTYPES, repeat=n):
+            if n == 3 and rng.random() > (0.05 if big else 0.008):
+                continue
+            if n == 2 and not big and rng.random() > 0.5:
+                continue
+            for form in ("prototype", "definition"):
+                for k in range(n):
+                    if combo[k] in ("size_t", "tval") and k + 1 < n and combo[k + 1] in tdef:
+                        continue
+                    ps = [PTYPES[t] % names[i] for i, t in enumerate(combo)]
+                    ps[k] = PTYPES[combo[k]].replace(" %s", "").replace("%s", "")
+                    head = "int\tf(%s)" % ", ".join(ps)
+                    out.append((f"{form} ({', '.join(combo)}) unnamed #{k + 1}", head + (";\n" if form == "prototype" else "\n{\n\treturn (0);\n}\n")))
+    return out
+
+
+def matrices(res, rng, big):
+    from impl import pipeline
+    for what, expr, good, code in operator_matrix(rng, None if big else 500):
+        mk = lambda e: "int\tf(int a, int b)\n{\n\tx = %s;\n\treturn (a);\n}\n" % e
+        r = pipeline("m.c", mk(expr))
+        res.count("matrix.operator", 1)
+        res.nontriv(("mx", expr))
+        rp = {"kind": "violation", "name": "m.c", "src": mk(expr), "operator": "matrix:" + what, "codes": [code], "line": 3}
+        if r["outcome"] != "ok" or not any(d[0] == code and d[3] and d[3][0][0] == 3 for d in r["diags"]):
+            res.report("violation:matrix-operator-spacing:missing", f"`{expr}` ({what}): {code} not reported on line 3 ({r['outcome']}); got {[d[0] for d in r.get('diags', []) if d[3] and d[3][0][0] == 3]}", rp)
+    for what, text in param_matrix(rng, big):
+        r = pipeline("p.c", text)
+        res.count("matrix.params", 1)
+        res.nontriv(("mp", text))
+        rp = {"kind": "violation", "name": "p.c", "src": text, "operator": "matrix:" + what, "codes": ["MISSING_IDENTIFIER"], "line": 1}
+        if r["outcome"] != "ok" or not any(d[0] == "MISSING_IDENTIFIER" and d[3] and d[3][0][0] == 1 for d in r["diags"]):
+            res.report("violation:matrix-unnamed-parameter:missing", f"{what}: MISSING_IDENTIFIER not reported on line 1 ({r['outcome']}); got {[d[0] for d in r.get('diags', [])]}", rp)
+
+
 def run(res, tier, br, model_ok=True, search=False):
     from impl import pipeline, run_cli
     known_silent(res)
+    matrices(res, random.Random(res.seed + 149), tier == "thorough" or search)
     rng = random.Random(res.seed + 139)
     big = tier == "thorough" or search
     progs = families.programs(rng, 120 if big else 24, kinds=("c", "c", "h"))
